@@ -47,7 +47,14 @@ try:
     if rc == 0:
         rcc, oc = sh(f"./check {prop} --tier quick", cwd="/verif", timeout=3000)
         out["check_exit"] = rcc
-        lines = [l for l in oc.split("\n") if l.startswith("VIOLATION") or " tier=" in l or l.startswith("KNOWN") or l.startswith("TOOL")]
+        import re as _re
+        lines = []
+        for l in oc.split("\n"):
+            m = _re.search(r"VIOLATION property=\S+ replay=\S+( no-failing-input-found)?", l)   # stderr noise may share the line
+            if m:
+                lines.append(m.group(0))
+            elif " tier=" in l or l.startswith("KNOWN") or l.startswith("TOOL"):
+                lines.append(l)
         out["check_lines"] = [l[:300] for l in lines][:6]
 finally:
     sh("git -C /repo checkout -- .")
